@@ -284,6 +284,11 @@ Definition prog_state (q : list (list val)) (u : list val -> val -> val) (k : na
 Definition prog_both (q : list (list val)) (w s : Z) (u : list val -> val -> val) (k : nat) : list node :=
   Src q :: Window w s 0 :: consumers 1 k ++ Stateful u 0 :: consumers_from (2 + k) k k.
 
+(* q.countByWindow(w, s) with consumers 0..k-1, then q.updateStateByKey(u) with consumers k..2k-1, on one source *)
+Definition prog_count_state (q : list (list val)) (w s : Z) (u : list val -> val -> val) (k : nat) : list node :=
+  Src q :: Window w s 0 :: Trans FCountParts 1 :: Trans FSetName 2 :: Trans FReduceAdd 3 :: consumers 4 k
+  ++ Stateful u 0 :: consumers_from (5 + k) k k.
+
 (* ---- the library of update functions (Python twins in py/c11.py) ---- *)
 Definition z_of (v : val) : Z := match v with VInt z => z | _ => 0 end.
 (* lambda vs, s: (s if s is not None else 0) + sum(vs) *)
